@@ -48,7 +48,7 @@ EdgeFlags(i, e) ==
       post == Obs[e[1] + 1]
   IN      Tag("mem",  StoreViol(r, RespOf(e[3]), pre.m, post.m))
      \cup Tag("redb", StoreViol(r, RespOf(e[4]), pre.r, post.r))
-     \cup Tag("diff", DiffViol(r, RespOf(e[3]), RespOf(e[4]), post.m, post.r))
+     \cup Tag("diff", DiffViol(r, RespOf(e[3]), RespOf(e[4]), pre.m, pre.r, post.m, post.r))
 
 VARIABLES node, g, last
 
@@ -59,6 +59,7 @@ Init == /\ node = 0
 Next == \E j \in DOMAIN Nodes[node + 1].e :
           LET e == Nodes[node + 1].e[j]
               f == EdgeFlags(node + 1, e) IN
+          /\ e[1] >= 0                       \* (-1: target beyond the explorer's state cap)
           /\ node' = e[1]
           /\ g' = [flags |-> g.flags \cup (f \ Ignore)]
           /\ last' = [from |-> node, req |-> Alphabet[e[2]], m |-> Resps[e[3]][1], r |-> Resps[e[4]][1],
@@ -77,15 +78,16 @@ EdgesWhere(Bad(_, _)) == UNION {BadAt(i, Bad) : i \in DOMAIN Nodes}
 \* 1. conformance of every implementation edge with the specification
 MemConforms(i, e) ==
   LET o == MemStep([t |-> Obs[i].m.t], Alphabet[e[2]], K) IN
-  o.resp = RespOf(e[3]) /\ o.s.t = Obs[e[1] + 1].m.t
+  o.resp = RespOf(e[3]) /\ (e[1] >= 0 => o.s.t = Obs[e[1] + 1].m.t)
 RedbConforms(i, e) ==
   LET o == RedbStep(Obs[i].r, Alphabet[e[2]], K) IN
-  o.resp = RespOf(e[4]) /\ o.s = Obs[e[1] + 1].r
+  o.resp = RespOf(e[4]) /\ (e[1] >= 0 => o.s = Obs[e[1] + 1].r)
 
 MemDivergent  == EdgesWhere(LAMBDA i, e : ~MemConforms(i, e))
 RedbDivergent == EdgesWhere(LAMBDA i, e : ~RedbConforms(i, e))
 Malformed == {i \in DOMAIN Nodes : ~WellFormed(Nodes[i].m.t) \/ ~WellFormed(Nodes[i].r.t)}
-Flagged   == EdgesWhere(LAMBDA i, e : EdgeFlags(i, e) # {})
+Flagged   == EdgesWhere(LAMBDA i, e : e[1] >= 0 /\ EdgeFlags(i, e) # {})
+Truncated == EdgesWhere(LAMBDA i, e : e[1] < 0)
 Classes   == UNION {EdgeFlags(p[1], Nodes[p[1]].e[p[2]]) : p \in Flagged}
 NEdges    == FoldLeft(LAMBDA acc, nd : acc + Len(nd.e), 0, Nodes)
 
@@ -94,7 +96,8 @@ Describe(p, which) ==
   [node |-> nd.id, ri |-> e[2], req |-> r, backend |-> which,
    pre |-> IF which = "mem" THEN nd.m ELSE nd.r,
    resp |-> IF which = "mem" THEN Resps[e[3]] ELSE Resps[e[4]],
-   post |-> IF which = "mem" THEN Nodes[e[1] + 1].m ELSE Nodes[e[1] + 1].r,
+   post |-> IF e[1] < 0 THEN [t |-> <<>>, c |-> <<>>]
+            ELSE IF which = "mem" THEN Nodes[e[1] + 1].m ELSE Nodes[e[1] + 1].r,
    expected |-> IF which = "mem"
                 THEN LET o == MemStep([t |-> Obs[p[1]].m.t], r, K) IN [resp |-> o.resp, t |-> Dump(o.s.t)]
                 ELSE LET o == RedbStep(Obs[p[1]].r, r, K) IN
@@ -108,7 +111,9 @@ Report ==
     divergences |-> SetToSeq({Describe(p, "mem") : p \in MemDivergent})
                     \o SetToSeq({Describe(p, "redb") : p \in RedbDivergent}),
     flagged_edges |-> Cardinality(Flagged),
+    truncated_edges |-> Cardinality(Truncated),
     classes     |-> SetToSeq(Classes) ]
 
-ASSUME JsonSerialize(IOEnv.KVV_REPORT, Report)
+\* (the report does not depend on Ignore: the runs that only look for one more violating history skip it)
+ASSUME IOEnv.KVV_DO_REPORT = "false" \/ JsonSerialize(IOEnv.KVV_REPORT, Report)
 =============================================================================
